@@ -493,6 +493,19 @@ def wiring(ctx, facts):
                 r = s["r"]
                 if r["k"] == "agg" and r.get("vn") == "Ok" and r.get("adt") == "std::result::Result":
                     ok = bool(malsec._base_locals(b, r["ops"][0]) & carry_locals) and bb in b.reachable(cbb)
+            if not ok:
+                # `circuit(.., &mut carry).await.map(|_| carry)`: the closure handed to Result::map gives back the captured carry
+                for mb, mt in flow.find_calls(b, re.compile(r"Result::<T, E>::map$")):
+                    if mb not in b.reachable(cbb) or len(mt["args"]) != 2:
+                        continue
+                    cl_ = F.op_local(mt["args"][1])
+                    for _, idx_, d_ in b.defs().get(cl_, []) if cl_ is not None else []:
+                        if idx_ != "t" and d_.get("k") == "agg" and d_.get("ak") == "closure":
+                            cbod = facts.bodies.get(d_.get("def"))
+                            caps = set().union(*[malsec._base_locals(b, o) for o in d_["ops"]]) if d_["ops"] else set()
+                            r_ = flow.strip_casts(flow.expr_of(cbod, {"cp": [0]}, max_depth=6)) if cbod is not None else ("?",)
+                            no_other_ok = not any(s_["r"]["k"] == "agg" and s_["r"].get("vn") == "Ok" and s_["r"].get("adt") == "std::result::Result" for _, _, s_ in b.iter_assigns())
+                            ok = r_[0] == "upvar" and len(d_["ops"]) == 1 and bool(caps & carry_locals) and no_other_ok
             ctx.ob("WIRE-result", f"{name}:returns-final-carry", ok, "returns the carry after the circuit ran" if ok else "the comparison does not return the carry that was threaded through the subtraction", site_of(b, obb) if obb is not None else site_of(b))
         elif name == "integer_sat_sub":
             sel = [(bb, t) for bb, t in b.calls() if (F.callee(t)[0] or "").endswith("if_else::select")]
@@ -582,12 +595,14 @@ def loop_item(e):
     if e[0] != "proj" or e[1][0] != "call" or not e[1][1].endswith("Iterator::next"):
         return None
     tail = tuple(x for x in e[2:] if isinstance(x, int))
-    it = e[1][2][0]
-    for nm in ("IntoIterator::into_iter", "Iterator::enumerate"):
-        if it[0] == "call" and it[1].endswith(nm):
-            it = it[2][0]
-        else:
-            return (False, tail)
+    it = strip_ref(e[1][2][0])
+    # `for .. in it` calls into_iter first, `while let Some(..) = it.next()` on a named iterator does not
+    if it[0] == "call" and it[1].endswith("IntoIterator::into_iter"):
+        it = strip_ref(it[2][0])
+    if it[0] == "call" and it[1].endswith("Iterator::enumerate"):
+        it = strip_ref(it[2][0])
+    else:
+        return (False, tail)
     if not (it[0] == "call" and (it[1].endswith("Iterator::zip") or it[1] == "std::iter::zip")):
         return (False, tail)
     xa, yb = it[2]
